@@ -41,6 +41,7 @@ def make_case(seed, facts, index=0):
         "schedule": rng.random() < 0.8,
         "window": rng.random() < 0.85,
         "ties": rng.random() < 0.15,
+        "few_prices": rng.random() < 0.3,
     }
     if rng.random() < 0.04:
         swarm["n_rows"] = rng.choice([60, 120, 200])
